@@ -106,13 +106,17 @@ def _pair_shapes(tier, lq, lt, extra=True):
     for la in range(lmax + 1):
         for lb in range(lmax + 1):
             out.append(dict(la=la, lb=lb, K=[1, 1], M=[1, 1]))
+    if tier == "quick" and lt > lq:
+        # the top of the range as well (a constant or table that is right for small l only shows there)
+        out += [dict(la=lt, lb=0, K=[1, 1], M=[1, 1]), dict(la=0, lb=lt, K=[1, 1], M=[1, 1]), dict(la=lt, lb=1, K=[1, 1], M=[1, 1])]
     if extra:
         out += [dict(la=1, lb=0, K=[2, 1], M=[2, 1]), dict(la=0, lb=1, K=[1, 2], M=[1, 2]), dict(la=1, lb=1, K=[2, 2], M=[1, 1])]
         from .overlap import TYPE_SHAPES
 
         out += [dict(s) for s in TYPE_SHAPES if s["la"] <= lmax and s["lb"] <= lmax]
+        out += [dict(la=0, lb=0, K=[3, 4], M=[3, 2])]  # the largest primitive / segment counts the properties name
         if tier == "thorough":
-            out += [dict(la=2, lb=1, K=[2, 2], M=[2, 1]), dict(la=0, lb=0, K=[3, 4], M=[3, 2])]
+            out += [dict(la=2, lb=1, K=[2, 2], M=[2, 1]), dict(la=1, lb=0, K=[4, 1], M=[1, 3])]
     return out
 
 
